@@ -1448,6 +1448,10 @@ func (c *Client) sendSingleMsg(client *smtp.Client, message *Msg) error {
 	}
 	_, err = message.WriteTo(writer)
 	if err != nil {
+		// The content has been transmitted only in part. A DATA transfer cannot be aborted
+		// in-band: closing the writer or sending any further command would terminate it and
+		// make the server accept the fragment. Dropping the connection is the only way out.
+		_ = client.Close()
 		return &SendError{
 			Reason: ErrWriteContent, errlist: []error{err}, isTemp: isTempError(err),
 			affectedMsg: message, errcode: errorCode(err),
